@@ -37,7 +37,7 @@ def strategy(tier):
     def case(draw):
         P = draw(trees.piece_length(tier))
         route = draw(st.sampled_from(["lib", "lib", "cli"]))
-        t = draw(trees.tree(P, max_files=8 if tier == "quick" else 24, cli_safe=(route == "cli")))
+        t = draw(trees.tree(P, max_files=8 if tier == "quick" else 24, cli_safe=(route == "cli"), symlinks=False))
         auto = draw(st.sampled_from([True] + [False] * 9))
         return {
             "tree": t, "P": None if auto else P,
